@@ -41,14 +41,28 @@ def share_name(t):
     return t
 
 
+def sel_open(t):
+    """index of the brace that opens the (first) operation's selection set: after the variable definitions, whose
+    default values may contain braces"""
+    j = t.find("(")
+    if 0 <= j < t.find("{"):
+        depth = 0
+        for j in range(j, len(t)):
+            depth += t[j] == "("
+            depth -= t[j] == ")"
+            if depth == 0:
+                break
+        return t.find("{", j)
+    return t.find("{")
+
+
 DEEP = "{ types { fields { type { fields { type { fields { type { fields { name } } } } } } } } }"
 
 
 def deep_introspection(t):
     """introspection selections nested deeper than the depth rule allows: one through a meta field that the parent type does
     not have (no field definition there), then a well-placed one later in the document"""
-    i = t.find("{")
-    j = t.rfind("}") if " fragment " not in t else t.find("}", t.find("{"))
+    i = sel_open(t)
     first = "o { __schema %s } i { __type(name: \"A\") { fields { type { fields { type { fields { type { name } } } } } } } } " % DEEP
     return t[:i + 1] + " " + first + t[i + 1:] + " query Deep { __schema %s again: __schema %s }" % (DEEP, DEEP)
 
@@ -56,7 +70,7 @@ def deep_introspection(t):
 def frag_on_unknown(t):
     """a fragment on an unknown (or input) type that uses an operation variable of a type its position does not allow,
     defined in front of the operation that spreads it"""
-    i = t.find("{")
+    i = sel_open(t)
     head = t[:i]
     if "(" in head:
         head = head.replace("(", "($zz: String, ", 1)
@@ -79,7 +93,7 @@ def type_system_defs(t):
 def oneof_variable(t):
     """a nullable variable of a OneOf input type, declared last, and a fragment in front of the operation that uses nullable
     variables directly as argument values and inside a OneOf literal"""
-    i = t.find("{")
+    i = sel_open(t)
     head = t[:i]
     root = "Mutation" if head.lstrip().startswith("mutation") else "Query"
     decl = "$pi: Int, $pk: Pick"
